@@ -34,6 +34,7 @@ class Profile:
         self.p_post = 0.0
         self.p_lazy = 0.0
         self.p_self_merge = 0.03
+        self.p_mk = 0.0             # switch targets constructed inside the user function (during propagation / at force time)
         self.p_keep = 0.0           # a user function captures (without reading) handles of other objects and declares them
         self.p_loop_send = 0.3      # sends inside a loop-constructing transaction (before the loop, between definitions, after the close)
         self.p_listen_u = 0.0       # a listener whose callback unlistens an earlier listener
@@ -263,15 +264,23 @@ class Gen:
                 return False
             sel = self.pick("S", "int") if r.random() < 0.6 else None
             selc = self.pick("C", "int")
+            # the outer cell's function either hands out existing objects or constructs a fresh identity map of them
+            mc = "map_cmk" if r.random() < self.p.p_mk else "map_c"
+            src = sel if sel is not None else selc
+            if mc == "map_cmk" and (src is None or any(
+                    self.inst_reaches(src, c) or any(self.inst_reaches(src, d) for d in self.o[c].deps) for c in cands)):
+                # constructing a map of a stream from inside a function that runs in that stream's own propagation is
+                # not supported by the library (it blocks on the stream's own lock): only unrelated candidates
+                mc = "map_c"
             if sel is not None:
                 hh = self.new_h()
                 self.add(hh, "C", "int", [sel], "hold %d %d %d" % (hh, sel, r.randint(0, 5)))
                 ho = self.new_h()
-                self.add(ho, "C", "ref" + kind, [hh], "map_c %d %d sel:%s" % (ho, hh, ",".join(map(str, cands))), cands=cands)
+                self.add(ho, "C", "ref" + kind, [hh], "%s %d %d sel:%s" % (mc, ho, hh, ",".join(map(str, cands))), cands=cands)
                 outer = ho
             elif selc is not None:
                 ho = self.new_h()
-                self.add(ho, "C", "ref" + kind, [selc], "map_c %d %d sel:%s" % (ho, selc, ",".join(map(str, cands))), cands=cands)
+                self.add(ho, "C", "ref" + kind, [selc], "%s %d %d sel:%s" % (mc, ho, selc, ",".join(map(str, cands))), cands=cands)
                 outer = ho
             else:
                 return False
@@ -556,13 +565,36 @@ class Gen:
                 if x < 0.6:
                     self.gen_send()
                 elif x < 0.6 + p.p_nested and self.depth < 4:
-                    self.emit("{")
+                    # a nested bracket: a closure transaction, or a scoped one (closed once, closed then dropped, closed
+                    # twice, or just dropped - each must end exactly this bracket and nothing else)
+                    inner = None
+                    if r.random() < p.p_scoped:
+                        inner = self.next_t
+                        self.next_t += 1
+                        self.emit("tnew %d" % inner)
+                    else:
+                        self.emit("{")
                     self.depth += 1
                     for _ in range(r.randint(0, 2)):
                         self.gen_send()
                     self.gen_misc()
                     self.depth -= 1
-                    self.emit("}")
+                    if inner is None:
+                        self.emit("}")
+                    else:
+                        y = r.random()
+                        if y < 0.3:
+                            self.emit("tclose %d" % inner)
+                        elif y < 0.5:
+                            self.emit("tdrop %d" % inner)
+                        elif y < 0.8:
+                            self.emit("tclose %d" % inner)
+                            self.emit("tdrop %d" % inner)
+                        else:
+                            self.emit("tclose %d" % inner)
+                            self.emit("tclose %d" % inner)
+                        if r.random() < 0.5:
+                            self.gen_send()
                 else:
                     self.gen_misc()
             self.depth -= 1
@@ -665,7 +697,7 @@ def analyze(lines):
         try:
             if op in ("sink", "sink_co", "csink", "const", "never", "sloop", "cloop"):
                 d[int(w[1])] = dict(op=op, deps=[])
-            elif op in ("map", "map_c"):
+            elif op in ("map", "map_c", "map_cmk"):
                 h, s = int(w[1]), A(w[2])
                 d[h] = dict(op=op, deps=[s])
                 if w[3].startswith("sel:"):
@@ -767,7 +799,7 @@ def is_K3_lazy(lines):
         v = d[a]
         if v["op"] == "switch_c":
             return True
-        if v["op"] in ("map_c", "lift", "cloop", "hold_lazy", "accum_lazy"):
+        if v["op"] in ("map_c", "map_cmk", "lift", "cloop", "hold_lazy", "accum_lazy"):
             return any(cell_reach(x, seen) for x in v["deps"]) or any(cell_reach(x, seen) for x in v.get("lz", []))
         return False
     alias = {}
